@@ -279,7 +279,7 @@ for sz in HEAP_T:
     q = sz in ('e8', 'z0', 'e3', 'a64')
     add('k1_heap', 'heap_protocol_' + sz, 'heap_protocol_h::<%s>()' % TY[sz], props=['C18', 'C10', 'C12'], tier='q' if q else 't', cost=20, macro='ha')
     add('k1_heap', 'heap_expand_' + sz, 'heap_expand_h::<%s>()' % TY[sz], props=['C18', 'C10'], tier='q' if sz in ('e8', 'e3') else 't', cost=20, macro='ha')
-    add('k1_heap', 'heap_expand_exact_' + sz, 'heap_expand_exact_h::<%s>()' % TY[sz], props=['C18', 'C10', 'C12'], tier='q' if sz in ('e8', 'a64') else 't', cost=20, macro='ha')
+    add('k1_heap', 'heap_expand_exact_' + sz, 'heap_expand_exact_h::<%s>()' % TY[sz], props=['C18', 'C10', 'C12'], tier='q' if sz in ('e8', 'a64', 'z0') else 't', cost=20, macro='ha')
     add('k1_heap', 'heap_with_size_' + sz, 'heap_with_size_h::<%s>()' % TY[sz], props=['C18', 'C10'], tier='q' if sz in ('e8', 'z0') else 't', cost=5, macro='ha')
     add('k1_heap', 'heap_rawparts_' + sz, 'heap_rawparts_h::<%s>()' % TY[sz], props=['C17', 'C18'], tier='q' if sz in ('e8', 'z0') else 't', cost=5, macro='ha')
     if sz != 'z0':
@@ -370,6 +370,7 @@ for n in (1, 3, 8, 24):
         attrs=['#[kani::unwind(10)]'], flags=['nolc'], cost=30, macro='p')
 add('k1_loops', 'drop_closure_unbounded', 'drop_closure_unbounded_h()', props=['C03', 'C05'], tier='q', cost=5, macro='p', attrs=['#[kani::unwind(4)]'])
 add('k1_loops', 'clone_fn_unbounded', 'clone_fn_unbounded_h()', props=['C08', 'C03', 'C05'], tier='q', cost=5, macro='p', attrs=['#[kani::unwind(4)]'])
+add('k1_loops', 'clone_from_stack', 'clone_from_h()', props=['C08'], tier='q', kind='bounded', bound='real Stack<64> vectors of two 8-byte element types, lengths 0..=2', attrs=['#[kani::unwind(6)]'], flags=['nolc'], cost=30, macro='p')
 add('k1_loops', 'nop_clone', 'nop_clone_h()', props=['C08'], tier='q', cost=2, macro='p')
 B3 = 'real Stack<16> vector of u32 (capacity 4), every state and index in that bound, real copy_bytes unwound'
 add('k1_loops', 'k3_insert_u8', 'k3_insert_h::<u8, 6, 6>()', props=['C01', 'C05'], tier='t', kind='bounded', bound='real Stack<6> vector of u8 (capacity 6), every state and index in that bound, real copy_bytes unwound', attrs=['#[kani::unwind(20)]'], flags=['nolc'], cost=40, macro='p')
